@@ -66,11 +66,41 @@ func genC01(repo string) (string, error) {
 		}
 		o.sb.WriteString("Definition src_" + fn + " : string := " + goast.Q(src) + ".\n")
 	}
+	// who names the window key: the oracle alone
+	tks, err := goast.LiteralSites(repo, []string{"server", "pkg"}, "", "timestampKey")
+	if err != nil {
+		return "", err
+	}
+	o.strList("timestamp_key_sites", tks, "functions / declarations that use the identifier timestampKey")
 	eu, err := goast.Load(repo, "pkg/etcdutil/etcdutil.go")
 	if err != nil {
 		return "", err
 	}
 	if err := o.skeleton(eu, "", "EtcdKVGet", "skel_EtcdKVGet", goast.SkelOpt{ArgCalls: set("Get"), Conds: true}); err != nil {
+		return "", err
+	}
+	// where the window of an allocator lives (the persisted layout members of different releases must agree on): the
+	// Global allocator's below the root path, a Local allocator's below <root>/<dc-location>; a Local allocator is
+	// initialised by SyncTimestamp alone
+	if psrc, err := funcBodySrc(ts, "timestampOracle", "getTimestampPath"); err != nil {
+		return "", err
+	} else {
+		o.sb.WriteString("Definition src_getTimestampPath : string := " + goast.Q(psrc) + ".\n")
+	}
+	am0, err := goast.Load(repo, "server/tso/allocator_manager.go")
+	if err != nil {
+		return "", err
+	}
+	if psrc, err := funcBodySrc(am0, "AllocatorManager", "getAllocatorPath"); err != nil {
+		return "", err
+	} else {
+		o.sb.WriteString("Definition src_getAllocatorPath : string := " + goast.Q(psrc) + ".\n")
+	}
+	la0, err := goast.Load(repo, "server/tso/local_allocator.go")
+	if err != nil {
+		return "", err
+	}
+	if err := o.skeleton(la0, "LocalTSOAllocator", "Initialize", "skel_lta_Initialize", goast.SkelOpt{Calls: set("SyncTimestamp", "GetValue", "Commit", "LeaderTxn"), Assigns: set("suffix"), Conds: true}); err != nil {
 		return "", err
 	}
 	am, err := goast.Load(repo, "server/tso/allocator_manager.go")
